@@ -418,6 +418,15 @@ def r9_offset_validity_siblings(cx):
     cx.ob("R9", "R9/Offset.is_valid-inclusive", len(le) == 1 and le[0]["rv"]["op"] == "Le", g, "Offset::is_valid(size) is `offset <= size`")
 
 
+def r10_witness(cx):
+    """type-level: ContentPackCreator::finalize consumes the creator (no insertion after finalisation)"""
+    import witness
+    for name, ok, detail in witness.run(["c01_finalize_consumes"], repo=cx.repo):
+        cx.ob("R10", "R10/%s" % name, ok, "/verif/witness/src/lib.rs", detail)
+
+
+r10_witness.only_configs = ("lib-all3",)
+
 # without any compression feature the Compression enum has a single variant: the compressed path does not exist
 WITH_COMPRESSION = ("lib-all3", "lib-default", "all-bins", "lib-release")
 r5_compression_tables.only_configs = WITH_COMPRESSION
@@ -433,4 +442,5 @@ RULES = [
     ("R7", r7_width_covers, 3),
     ("R8", r8_sampling_rewinds, 1),
     ("R9", r9_offset_validity_siblings, 3),
+    ("R10", r10_witness, 1),
 ]
